@@ -138,6 +138,31 @@ def fmt_num(v):
     return s + '0' if s.endswith('.') else s
 
 
+def respell(tok, k):
+    """another spelling of the same decimal numeral, all of them legal free-format input: no digit before the point
+    ('.5', '-.5', '+.5'), an explicit plus sign, a trailing zero; k selects the variant; non-numerals are returned unchanged"""
+    import re as _re
+    if not _re.fullmatch(r'[+-]?\d+(\.\d*)?', tok):
+        return tok
+    neg = tok.startswith('-')
+    sign = '-' if neg else ''
+    body = tok.lstrip('+-')
+    if '.' not in body:
+        return tok if neg or k % 2 else '+' + body
+    ip, fp = body.split('.')
+    options = []
+    if ip == '0' and fp:
+        options.append(sign + '.' + fp)
+        if not neg:
+            options.append('+.' + fp)
+    if not neg:
+        options.append('+' + body)
+    options.append(sign + body + '0')
+    if neg and ip == '0' and fp:
+        options.append('-.' + fp + '0')
+    return options[k % len(options)]
+
+
 ATOM_NAMES = ['C1', 'C2', 'C3', 'O1', 'N1', 'C4', 'C5', 'F1', 'C1A', 'O2B']
 
 
